@@ -5,7 +5,7 @@
 From Coq Require Import ZArith List.
 From NTT Require Import Functors Algebra Inverse NTTInst NTTClosed NTTTables Shards Permut Tables FlatTable Fused GenEq.
 From NTT.gen Require Gen GenLoop.
-From NTT Require Structural GenLoopEq ScalarOps GenPrepEq InitSpec GenInitEq PrepSpec PermSem PermSrc InvNttSrc Frame InvNttAll.
+From NTT Require Structural GenLoopEq ScalarOps GenPrepEq InitSpec GenInitEq PrepSpec PermSem PermSrc InvNttSrc Frame InvNttAll SourceModel.
 From NTT.gen Require GenPerm.
 From NTT.gen Require Import Params.
 Local Open Scope Z_scope.
@@ -234,3 +234,37 @@ Theorem C02_source_inv_ntt : forall k0 p om padW padW' fuel invK, (3 <= S k0 <= 
      GenLoop.gen_inv_ntt_avx2_u64 fuel (Z.of_nat n) x 0 W 0 (W' 64) 0 invK p y0 = out 64 x y0).
 Proof. exact InvNttAll.source_inv_ntt_all_builds. Qed.
 Print Assumptions C02_source_inv_ntt.
+
+(* THE EXTRACTED TRANSFORM PAIR OVER THE TRANSLATED SOURCE.  ntt_fwd_s / ntt_inv_s (NTTInst.v) are the model that is extracted and run
+   against the library and on which the theorems at the top of this file are stated (through C02_structure_*_open).  On tables laid out as
+   core::initialize() lays them out (C02_source_initialize: FlatTable.flat of omega / invomega, the Shoup companions, anything after them):
+     - the translated core::ntt of every build, applied to the twisted input (the expression  op * phis  of ntt_pow_phi), returns ntt_fwd_s x;
+     - ntt_inv_s y is the pointwise multiplication by invpoly_times_invphis (cs) of what the translated core::inv_ntt of every build returns.
+   Left to the hand model and the correspondence: those two expression-template statements (C07) and the loop over the moduli. *)
+Theorem C02_source_forward_is_model : forall p g K k0 padW padW', (3 <= S k0 <= 30)%nat -> 1 < p -> List.Forall (fun v => 0 <= v < p) padW ->
+  let k := S k0 in let n := (2 ^ k)%nat in let om := omega p g K k0 in
+  let W := (FlatTable.flat p k om ++ padW)%list in let W' := fun w => (List.map (fun v => (v * 2 ^ w) / p) (FlatTable.flat p k om) ++ padW')%list in
+  (p < 2 ^ 14 -> List.Forall (fun v => 0 <= v < 2 ^ 16) padW' -> forall x, let tx := Inverse.twist p k0 (phis p g K k0) x in
+     let out := Some ((ntt_fwd_s 16 p g K k0 x, Z.of_nat n, Z.of_nat (FlatTable.off k (k - 2)), Z.of_nat (FlatTable.off k (k - 2))), true) in
+     GenLoop.gen_ntt_serial_u16 (Z.of_nat n) tx 0 W 0 (W' 16) 0 p = out /\ GenLoop.gen_ntt_sse_u16 (Z.of_nat n) tx 0 W 0 (W' 16) 0 p = out /\ GenLoop.gen_ntt_avx2_u16 (Z.of_nat n) tx 0 W 0 (W' 16) 0 p = out) /\
+  (4 * p <= 2 ^ 32 -> List.Forall (fun v => 0 <= v < 2 ^ 32) padW' -> forall x, let tx := Inverse.twist p k0 (phis p g K k0) x in
+     let out := Some ((ntt_fwd_s 32 p g K k0 x, Z.of_nat n, Z.of_nat (FlatTable.off k (k - 2)), Z.of_nat (FlatTable.off k (k - 2))), true) in
+     GenLoop.gen_ntt_serial_u32 (Z.of_nat n) tx 0 W 0 (W' 32) 0 p = out /\ GenLoop.gen_ntt_sse_u32 (Z.of_nat n) tx 0 W 0 (W' 32) 0 p = out /\ GenLoop.gen_ntt_avx2_u32 (Z.of_nat n) tx 0 W 0 (W' 32) 0 p = out) /\
+  (4 * p <= 2 ^ 64 -> List.Forall (fun v => 0 <= v < 2 ^ 64) padW' -> forall x, let tx := Inverse.twist p k0 (phis p g K k0) x in
+     let out := Some ((ntt_fwd_s 64 p g K k0 x, Z.of_nat n, Z.of_nat (FlatTable.off k (k - 2)), Z.of_nat (FlatTable.off k (k - 2))), true) in
+     GenLoop.gen_ntt_serial_u64 (Z.of_nat n) tx 0 W 0 (W' 64) 0 p = out /\ GenLoop.gen_ntt_sse_u64 (Z.of_nat n) tx 0 W 0 (W' 64) 0 p = out /\ GenLoop.gen_ntt_avx2_u64 (Z.of_nat n) tx 0 W 0 (W' 64) 0 p = out).
+Proof. exact (fun p g K k0 padW padW' Hk Hp HpW => SourceModel.source_forward_is_model p g K k0 padW padW' Hk Hp HpW). Qed.
+Print Assumptions C02_source_forward_is_model.
+Theorem C02_source_inverse_is_model : forall p g ik K k0 padW padW' fuel invK, (3 <= S k0 <= 30)%nat -> 1 < p -> List.Forall (fun v => 0 <= v < p) padW -> (S k0 < fuel)%nat ->
+  let k := S k0 in let n := (2 ^ k)%nat in let om := invomega p g K k0 in
+  let W := (FlatTable.flat p k om ++ padW)%list in let W' := fun w => (List.map (fun v => (v * 2 ^ w) / p) (FlatTable.flat p k om) ++ padW')%list in
+  let ok := fun (w : Z) (y : list Z) (r : option (list Z * list Z * Z * Z * bool)) => exists z y1, r = Some ((z, y1, 0, 0), true) /\
+    ntt_inv_s w p g ik K k0 y = Inverse.tab k0 (fun i => (List.nth i z 0 * List.nth i (cs p g ik K k0) 0) mod p) in
+  (p < 2 ^ 14 -> List.Forall (fun v => 0 <= v < 2 ^ 16) padW' -> forall y y0, length y = n -> List.Forall (fun v => 0 <= v < 2 ^ 16) y -> length y0 = S n ->
+     ok 16 y (GenLoop.gen_inv_ntt_serial_u16 fuel (Z.of_nat n) y 0 W 0 (W' 16) 0 invK p y0) /\ ok 16 y (GenLoop.gen_inv_ntt_sse_u16 fuel (Z.of_nat n) y 0 W 0 (W' 16) 0 invK p y0) /\ ok 16 y (GenLoop.gen_inv_ntt_avx2_u16 fuel (Z.of_nat n) y 0 W 0 (W' 16) 0 invK p y0)) /\
+  (4 * p <= 2 ^ 32 -> List.Forall (fun v => 0 <= v < 2 ^ 32) padW' -> forall y y0, length y = n -> List.Forall (fun v => 0 <= v < 2 ^ 32) y -> length y0 = S n ->
+     ok 32 y (GenLoop.gen_inv_ntt_serial_u32 fuel (Z.of_nat n) y 0 W 0 (W' 32) 0 invK p y0) /\ ok 32 y (GenLoop.gen_inv_ntt_sse_u32 fuel (Z.of_nat n) y 0 W 0 (W' 32) 0 invK p y0) /\ ok 32 y (GenLoop.gen_inv_ntt_avx2_u32 fuel (Z.of_nat n) y 0 W 0 (W' 32) 0 invK p y0)) /\
+  (4 * p <= 2 ^ 64 -> List.Forall (fun v => 0 <= v < 2 ^ 64) padW' -> forall y y0, length y = n -> List.Forall (fun v => 0 <= v < 2 ^ 64) y -> length y0 = S n ->
+     ok 64 y (GenLoop.gen_inv_ntt_serial_u64 fuel (Z.of_nat n) y 0 W 0 (W' 64) 0 invK p y0) /\ ok 64 y (GenLoop.gen_inv_ntt_sse_u64 fuel (Z.of_nat n) y 0 W 0 (W' 64) 0 invK p y0) /\ ok 64 y (GenLoop.gen_inv_ntt_avx2_u64 fuel (Z.of_nat n) y 0 W 0 (W' 64) 0 invK p y0)).
+Proof. exact (fun p g ik K k0 padW padW' fuel invK Hk Hp HpW Hf => SourceModel.source_inverse_is_model p g K k0 padW padW' Hk Hp HpW ik fuel invK Hf). Qed.
+Print Assumptions C02_source_inverse_is_model.
